@@ -24,6 +24,42 @@ Theorem C08_factor_code_writer_encoding : forall n we w a, typedn n we w a ->
 Proof. exact rdec_rval_wire. Qed.
 Print Assumptions C08_factor_code_writer_encoding.
 
+(** ** C08_factor, second half: inside the agreement zone the value-level algorithm of the code IS the specification.
+
+    FULL statement (false of the faithful model, see the refutations below):
+        typedn n we w a -> (n <= f)%nat ->
+        rdec f we re ropts0 w (Some r) (wire a ++ x) = lift x (resolve we re w r a)
+
+    Proved ( _partial ): for schemas without by-name references and annotations ([inline]) under the computable side
+    condition [agree we re w r] = "every decision the code takes on the way (match_schemas / match_types verdicts, the
+    reader-union branch it picks) coincides with the specification's, no int/long -> float promotion, no empty-string enum
+    default, reader-only fields have defaults that are already values of their type".  [agree] excludes exactly the
+    shapes of the refutations below that can be written without references (F6, kind of a named type not compared,
+    unconverted defaults, int -> float, same unqualified name in a union); the three remaining ones (F7, the TypeError,
+    references compared by name only) need by-name references.
+    MISSING for the full-strength partial theorem: schemas with by-name references / recursive types and dict-form
+    primitives (annotations) — for those only C08_factor_code (all inputs) and the correspondence check stand. *)
+Theorem C08_factor_zone_partial : forall n we w a, typedn n we w a ->
+  forall re r f x, (n <= f)%nat -> inline w = true -> inline r = true -> agree we re w r = true ->
+  rdec f we re ropts0 w (Some r) (wire a ++ x)%list = lift x (resolve we re w r a).
+Proof. exact rdec_resolve_zone_wire. Qed.
+Print Assumptions C08_factor_zone_partial.
+
+(** ... for every valid layout of the value (any block partition) *)
+Theorem C08_factor_zone_layout_partial : forall n we w l, typedl n we w l ->
+  forall re r f x, (n <= f)%nat -> typedn n we w (erase l) ->
+  inline w = true -> inline r = true -> agree we re w r = true ->
+  rdec f we re ropts0 w (Some r) (wire_l l ++ x)%list = lift x (resolve we re w r (erase l)).
+Proof. exact rdec_resolve_zone. Qed.
+Print Assumptions C08_factor_zone_layout_partial.
+
+(** the value-level statement alone *)
+Theorem C08_rval_is_resolve_partial : forall n we w a, typedn n we w a -> forall re r f, (n <= f)%nat ->
+  inline w = true -> inline r = true -> agree we re w r = true ->
+  rval f we re ropts0 w (Some r) a = resolve we re w r a.
+Proof. exact rval_resolve. Qed.
+Print Assumptions C08_rval_is_resolve_partial.
+
 (** ** C08_identity: with a reader schema equal to the writer schema, the specification returns what reading
     without a reader schema returns ([py_of]).  [wf_ident]: union branches do not capture each other, record
     fields find themselves by name, references resolve to named types. *)
@@ -31,6 +67,14 @@ Theorem C08_identity : forall n e s a, typedn n e s a -> wf_ident n e s ->
   exists v, py_of ropts0 e s a = Some v /\ resolve e e s s a = ROk v.
 Proof. exact resolve_identity. Qed.
 Print Assumptions C08_identity.
+
+(** ... and so does the code inside the zone (reader == writer given as a separate object, container route) *)
+Theorem C08_identity_code_partial : forall n e s a, typedn n e s a -> wf_ident n e s ->
+  inline s = true -> agree e e s s = true ->
+  forall f x, (n <= f)%nat ->
+  exists v, py_of ropts0 e s a = Some v /\ rdec f e e ropts0 s (Some s) (wire a ++ x)%list = ROk (v, x).
+Proof. exact rdec_identity_zone. Qed.
+Print Assumptions C08_identity_code_partial.
 
 (** ** C08_error_*: when no rule applies the specification's result is the resolution error *)
 Theorem C08_error_no_default : forall we re w r l wn wal wfs rn ral rfs record tbl1 n fd tbl2,
@@ -189,3 +233,18 @@ Example C08_example :
   rdec 5 [(s2b "R", ex_w)] [(s2b "ns.R", ex_r)] ropts0 ex_w (Some ex_r) (wire ex_a ++ [7; 7])%list = ROk (ex_out, [7; 7]) /\
   resolve [(s2b "R", ex_w)] [(s2b "ns.R", ex_r)] ex_w ex_r ex_a = ROk ex_out.
 Proof. exact example_agree. Qed.
+
+Example C08_example_in_zone :
+  inline ex_w = true /\ inline ex_r = true /\ agree [(s2b "R", ex_w)] [(s2b "ns.R", ex_r)] ex_w ex_r = true.
+Proof. exact example_in_zone. Qed.
+
+(** the witnesses of the refutations are outside the zone ([agree] false, or not [inline]) *)
+Example C08_witnesses_outside_zone :
+  agree [] [] SBytes f6_r = false /\
+  agree [(s2b "R", g2_w)] [(s2b "R", g2_r)] g2_w g2_r = false /\
+  agree [(s2b "F", F4)] [(s2b "F", g2b_r)] F4 g2b_r = false /\
+  agree [(s2b "R", g3_w)] [(s2b "R", g3_r)] g3_w g3_r = false /\
+  agree [] [] SInt SFloat = false /\
+  agree g5_e g5_e g5_u g5_u = false /\
+  inline f7_w = false /\ inline g1_w = false /\ inline g6_w = false.
+Proof. exact witnesses_outside_zone. Qed.
